@@ -147,6 +147,10 @@ func checkC05(c *Ctx) {
 				if f.Op == "!=" && oneIsNil(f) && strings.Contains(nonNil(f), "TimeoutRuler).LocalTimeoutRule(") && strings.HasSuffix(nonNil(f), "#1") {
 					return true // signing failed
 				}
+				// the outcome of a helper that reports having sent the timeout (`if s.resendLastTimeout(view) { return }`)
+				if f.Op == "after" && strings.HasPrefix(f.L, "invoke (hs/core.Sender).Timeout(") {
+					return true
+				}
 			}
 			return false
 		})
@@ -520,7 +524,11 @@ func checkC05(c *Ctx) {
 			"duration.ViewTimeout() precedes every fresh timeout and is not reached on the re-send path", "fresh path ok: "+boolStr(okFresh)+", resend path ok: "+boolStr(okResend)+", call sites: "+itoa(nVT))
 		var bad []string
 		for _, ds := range deepSites(flRoot, func(cc *ssa.CallCommon) bool { return cc.IsInvoke() && cc.Method.Name() == "ViewSucceeded" }, 0) {
-			if !falseOf(ds.Facts, func(k string) bool { return strings.Contains(k, "VerifySyncInfo(") && strings.HasSuffix(k, "#2") }) {
+			facts := ds.Facts
+			if ds.In == flRoot.Fn {
+				facts = aliasHelperResults(flRoot, facts)
+			}
+			if !falseOf(facts, func(k string) bool { return strings.Contains(k, "VerifySyncInfo(") && strings.HasSuffix(k, "#2") }) {
 				bad = append(bad, "ViewSucceeded at "+p.Pos(ds.Site.Pos())+" not under !timeout")
 			}
 		}
@@ -612,11 +620,38 @@ func c05DropOnlyUnverified(c *Ctx, rule string) {
 		c.Unresolved(rule, "OnRemoteTimeout/advanceView", "anchor missing")
 		return
 	}
+	// the handler's body may have been moved, whole, into a private helper that receives the timeout
+	// (`s.handleRemoteTimeout(currView, timeout); s.timeouts.deleteOldViews(currView)`): the rule is evaluated there
+	tmo := "p1"
+	entry := ort
+	if len(callsIn(ort, false, func(cc *ssa.CallCommon) bool { return calleeIs(cc, advRoot) })) == 0 {
+		for _, s := range callsIn(ort, false, func(cc *ssa.CallCommon) bool {
+			cal := cc.StaticCallee()
+			return cal != nil && cal.Blocks != nil && funcPkgPath(cal) == funcPkgPath(ort) && cal.Object() != nil && !cal.Object().Exported()
+		}) {
+			if _, isCall := s.(*ssa.Call); !isCall {
+				continue
+			}
+			cal := s.Common().StaticCallee()
+			if len(callsIn(cal, false, func(cc *ssa.CallCommon) bool { return calleeIs(cc, advRoot) })) == 0 {
+				continue
+			}
+			k := NewKeyer(p, ort)
+			for i, a := range s.Common().Args {
+				if ak := k.Key(a); ak == "p1" || ak == "*&[p1]" {
+					if p.ownedByAny(cal, []string{shortName(ort)}) {
+						entry, tmo = cal, "p"+itoa(i)
+					}
+				}
+			}
+		}
+	}
 	{
+		ort := entry
 		fr := NewFlow(p, ort)
 		isAdv := func(in ssa.Instruction) bool {
 			ci, ok := in.(ssa.CallInstruction)
-			return ok && calleeIs(ci.Common(), advRoot) && fr.K.Key(ci.Common().Args[1]) == "p1."+kTOMsg+"SyncInfo"
+			return ok && calleeIs(ci.Common(), advRoot) && fr.K.Key(ci.Common().Args[1]) == tmo+"."+kTOMsg+"SyncInfo"
 		}
 		var bad []string
 		n := 0
